@@ -54,6 +54,8 @@ pub use self::backend_req::Backend;
 mod gpu_backend_req;
 pub mod gpu_message;
 pub use self::gpu_backend_req::GpuBackend;
+#[cfg(vhost_verif)]
+pub mod verif_hooks;
 
 /// Errors for vhost-user operations
 #[derive(Debug)]
